@@ -157,6 +157,9 @@ PROPS = {
         design="3/C20"),
     "C10": dict(
         engine="compsim", profile="C10", builds=["dbg", "rwdi"], level="exploration",
+        parts=[dict(engine="compsim", profile="C10", builds=["dbg", "rwdi"], weight=4.0),
+               # shared_ptr / unique_ptr helpers and the deleter classes (the smart mode C09 and C20 use)
+               dict(engine="compsim", profile="C09S", builds=["dbg", "rwdi"], weight=1.0)],
         quick_s=40, thorough_s=600, rule=PROPS_COMP_RULE_CONT,
         stubs=["two stateful logging leaf RawAllocators A and B (and a stateless one) that notice a release of "
                "memory they did not hand out or with other parameters", "std::allocator containers as reference "
@@ -255,14 +258,16 @@ PROPS = {
     "C15": dict(
         engine="histsim", profile="C15", builds=["dbg", "rwdi", "rel"], level="exploration",
         parts=[dict(engine="histsim", profile="C15", builds=["dbg", "rwdi", "rel"], weight=3.0),
-               dict(engine="histsim", profile="C15X", builds=["dbg", "rwdi", "rel"], san="plain", weight=1.0)],
+               dict(engine="histsim", profile="C15X", builds=["dbg", "rwdi", "rel"], san="plain", weight=1.0),
+               dict(engine="schedsim", profile="C15T", builds=["dbg", "rwdi"], weight=0.6)],
         quick_s=40, thorough_s=600,
         technique="deterministic simulation: traits-level histories with moves and leftovers; leak-handler "
                   "oracle bracketed around each destruction",
         text="allocator_traits-level histories on pools, collections and stacks with moves and a drawn set "
              "left live; at each destruction the recording leak handler must be called exactly once with "
              "the model's net (or not at all when balanced / moved-from / checking off).",
-        note="Exit-time reports of the stateless allocators are checked by deathsim (same property).",
+        note="Exit-time reports of the stateless allocators are checked in forked children (profile C15X); the "
+             "process-wide counter under concurrent use is checked by schedsim (profile C15T, hook H2).",
         design="3/C15"),
     "C16": dict(
         engine="histsim", profile="C16", builds=["dbg", "rwdi"], level="fault_enumeration",
@@ -270,8 +275,9 @@ PROPS = {
         quick_s=40, thorough_s=600, chunk=40,
         rule="each run = a valid seeded operation history (prefix) on a pool or stack followed by the complete "
              "misuse table: {pointer outside every chunk: other allocator's memory / program stack / chunk header, "
-             "pointer off the node boundary} on small-node pools, double free of the node at the lowest / highest "
-             "address / most recently freed / middle of the free list on node, array and small pools (builds with "
+             "pointer off the node boundary at any offset / at an offset that keeps the node's alignment} on small-node "
+             "pools, double free of the node at the lowest / highest address / most recently freed / the neighbour below "
+             "or above the most recently freed / middle of the free list on node, array and small pools (builds with "
              "double-free checking), unwind to a marker above the top in the same / a later block, out-of-order or "
              "repeated deallocate_block on static / virtual / fixed block allocators; every case runs in its own "
              "forked child whose way of ending (handler with unchanged state, abort, normal return, hang) is the "
